@@ -233,6 +233,12 @@ def run_job(job, tree, trace=False):
         return out
     out["fails"] = fails
     out["status"] = "fail" if fails else "ok"
+    if fails and job.loops and job.enforce and all(inductive_only(r, tree) for r in fails):
+        # Every failed obligation of this loop-contract job lies on a path through a havocked loop head or in the proof's own
+        # scaffolding (invariant, role precondition of a replaced callee, pointer re-normalisation, ghost-stated postcondition):
+        # it can mean "the code is wrong" or "the loop was restructured and needs another invariant".  No memory-safety
+        # check and no frame check on a real object failed.  Reported as a VIOLATION only with a native failing input.
+        out["frame_mismatch"] = "only inductive-step / scaffolding obligations failed: " + "; ".join("[%s]" % r["name"] for r in fails[:4])
     if fails and limits:
         # "local X is not assignable" INSIDE a contracted loop: the code now changes a variable the loop contract does not
         # havoc, so the inductive step ran on a wrong abstraction - its failures (and successes) say nothing about the code.
@@ -241,6 +247,22 @@ def run_job(job, tree, trace=False):
     if trace:
         out["trace"] = txt
     return out
+
+
+_HARD = ("pointer_dereference", "array_bounds", "overflow", "undefined-shift", "division-by-zero", "pointer_primitives",
+         "precondition_instance", "no-body", "C17 erasure", "C19 constructor")
+
+
+def inductive_only(r, tree):
+    """True for a failed obligation that is part of the loop proof's scaffolding (see run_job); False for memory-safety checks,
+    frame checks on objects that are not locals, and checker assertions about real memory (C17)"""
+    name, desc = r["name"], r["desc"]
+    if any(h in name or h in desc for h in _HARD):
+        return False
+    if ".assigns." in name:
+        m = re.match(r"Check that ([A-Za-z_][A-Za-z_0-9]*) is assignable$", desc)
+        return bool(m) and m.group(1) not in file_scope_names(tree, ("src", "examples", "arduino")) and not m.group(1).startswith("VG")
+    return True
 
 
 _fninfo_cache = {}
@@ -430,8 +452,8 @@ def run_check(prop, jobs, tier, replay_fn=None, extra_assumptions=(), level_text
                 fh.write("\n--- verifier output (tail) ---\n%s\n" % tr[-20000:])
             if o.get("frame_mismatch") and not found:
                 o["status"] = "undecided"
-                o["reason"] = ("the loop contract's frame does not fit the edited loop (%s): the failed inductive step is not evidence, and the "
-                               "native replay found no failing input" % o["frame_mismatch"])
+                o["reason"] = ("loop proof does not fit the code (%s): such failures are evidence only together with a failing input on the "
+                               "real code, and the native replay found none" % o["frame_mismatch"])
                 undec.append((j, o))
                 done_jobs.discard(j.id)
                 os.replace(rp, rp[:-4] + ".undecided.txt")    # kept for inspection, not a violation record
